@@ -367,7 +367,7 @@ func init() {
 				c.Sample(map[string]any{"family": "create-single-bit-pairs", "creator_bits": bmBits(creator), "requested_bit": j})
 			}
 		}})
-		x.Add(&Family{Name: "create-random-pairs", Quick: 1200, Thor: 40000, Run: func(c *Case) {
+		x.Add(&Family{Name: "create-random-pairs", Quick: 1200, Thor: 20000, Run: func(c *Case) {
 			r := c.R
 			creator := randBitmap(r)
 			if r.Chance(85) {
@@ -423,7 +423,7 @@ func init() {
 			runCreate(c, nil, which, creator, field, r.Chance(10))
 			c.Dist(fmt.Sprintf("create/fieldlen-%02d", len(field)))
 		}})
-		x.Add(&Family{Name: "editor-multi", Quick: 300, Thor: 8000, Run: func(c *Case) {
+		x.Add(&Family{Name: "editor-multi", Quick: 300, Thor: 4000, Run: func(c *Case) {
 			// several sub-requests in one editor transaction: every account that exists afterwards and did not
 			// exist before must be ⊆ creator
 			r := c.R
@@ -496,7 +496,7 @@ func init() {
 			c.Nontrivial(fmt.Sprint("multi:", bmHex(creator), desc))
 			c.Dist(fmt.Sprintf("editor-multi/subrequests-%d", n))
 		}})
-		x.Add(&Family{Name: "disconnect", Quick: 16, Thor: 64, Run: func(c *Case) {
+		x.Add(&Family{Name: "disconnect", Quick: 16, Thor: 32, Run: func(c *Case) {
 			// each case: one requester kind × a slice of the target list × all options, run concurrently
 			idx := tableIndex(c, 64)
 			reqs := []hotline.AccessBitmap{bmOf(22), allOnes(), bmOf(22, 23), {}}
